@@ -258,13 +258,63 @@ Fixpoint cumulative_ok (n : nat) (F : list N) (acc : N) : bool :=
   | S _, [] => true
   end.
 
-(* rans_4x8::decode on  [0; csize; 0u32] ++ bs : order 0, uncompressed size 0 — the table is read,
-   the cumulative table built, four u32 states read, no symbol decoded *)
+Definition S_STATE_STEP : N := 10.     (* rans_4x8/decode.rs state_step: u32 mul / add / sub *)
+
+(* build_cumulative_frequencies as a function: C[sym] = F[0] + ... + F[sym-1] *)
+Fixpoint cum_at (F : list N) (sym : nat) : N :=
+  match sym, F with
+  | O, _ => 0
+  | S k, g :: r => g + cum_at r k
+  | S _, [] => 0
+  end.
+
+(* build_cumulative_frequencies_symbols_table[f]: advance sym while sym < 255 && f >= C[sym+1] *)
+Fixpoint table_sym (fuel : nat) (F : list N) (f : N) (sym : nat) : nat :=
+  match fuel with
+  | O => sym
+  | S fu => if (Nat.ltb sym 255) && (cum_at F (S sym) <=? f) then table_sym fu F f (S sym) else sym
+  end.
+
+Definition le32 (b0 b1 b2 b3 : N) : N := b0 + 256 * b1 + 65536 * b2 + 16777216 * b3.
+
+(* state_renormalize: while s < 2^23 { s = (s << 8) | next byte } *)
+Fixpoint renorm (fuel : nat) (s : N) (bs : list N) : res N :=
+  match fuel with
+  | O => Err
+  | S fu =>
+      if s <? 8388608 then
+        match bs with
+        | [] => Err
+        | b :: r => renorm fu (s * 256 + b) r
+        end
+      else Ok s
+  end.
+
+(* rans_4x8::decode on  [0; csize; 1u32] ++ bs : order 0, uncompressed size 1 — the table is read,
+   the cumulative and lookup tables built, four u32 states read, ONE symbol decoded with state 0 *)
 Definition rfreq (bs : list N) : res unit :=
   match read_frequencies bs with
   | Panic x => Panic x
   | Err => Err
   | Ok (F, rest) =>
-      if cumulative_ok 255 F 0 then (if 16 <=? N.of_nat (length rest) then Ok tt else Err)
+      if cumulative_ok 255 F 0 then
+        match rest with
+        | b0 :: b1 :: b2 :: b3 :: _ :: _ :: _ :: _ :: _ :: _ :: _ :: _ :: _ :: _ :: _ :: _ :: tail =>
+            let s := le32 b0 b1 b2 b3 in
+            let f := s mod 4096 in
+            let sym := table_sym 255 F f 0 in
+            let fr := nth sym F 0 in
+            let g := cum_at F sym in
+            let a := fr * (s / 4096) in
+            if 4294967295 <? a then Panic S_STATE_STEP
+            else if 4294967295 <? a + f then Panic S_STATE_STEP
+            else if a + f <? g then Panic S_STATE_STEP
+            else match renorm (S (length tail)) (a + f - g) tail with
+                 | Ok _ => Ok tt
+                 | Err => Err
+                 | Panic x => Panic x
+                 end
+        | _ => Err
+        end
       else Panic S_CUM_ADD
   end.
